@@ -34,6 +34,16 @@ def replay {Ca Cu : Type} (I : Impl Ca Cu) : List Nat → Ca → List Cu → Lis
       let r := I.next ca cu
       (I.loc cu, r.1) :: replay I ks r.2.1 (cus ++ [r.2.2])
 
+/-- the cache after the schedule has been replayed (e.g. to read off what a `Stream` has pulled from its iterator) -/
+def replayFinal {Ca Cu : Type} (I : Impl Ca Cu) : List Nat → Ca → List Cu → Ca
+  | [], ca, _ => ca
+  | k :: ks, ca, cus =>
+    match cus[k % cus.length]? with
+    | none => ca
+    | some cu =>
+      let r := I.next ca cu
+      replayFinal I ks r.2.1 (cus ++ [r.2.2])
+
 /-! ### the reference: a token list indexed by the cursor (`&[T]`, `[T; N]`) -/
 
 def listImpl (toks : List Nat) : Impl Unit Nat where
